@@ -157,8 +157,8 @@ impl<'tcx> Cx<'tcx> {
                     };
                     let _ = write!(s, ",\"v\":{}", v);
                 } else if let Const::Unevaluated(u, _) = c {
-                    if u.promoted.is_some() {
-                        s.push_str(",\"promoted\":true");
+                    if let Some(pi) = u.promoted {
+                        let _ = write!(s, ",\"promoted\":{}", pi.as_usize());
                     } else {
                         let _ = write!(s, ",\"cdef\":{}", esc(&self.path(u.def)));
                     }
@@ -357,7 +357,50 @@ impl<'tcx> Cx<'tcx> {
                 );
             }
         }
-        out.push_str("},\"blocks\":[");
+        out.push_str("},\"promoted\":[");
+        if !matches!(kind, DefKind::Closure) || true {
+            let proms = tcx.promoted_mir(did);
+            let mut fp = true;
+            for pb in proms.iter() {
+                if !fp {
+                    out.push(',');
+                }
+                fp = false;
+                // summarise the promoted value: the aggregate / constant it is built from
+                let mut summary = String::from("null");
+                for bbd in pb.basic_blocks.iter() {
+                    for st in bbd.statements.iter() {
+                        if let StatementKind::Assign(b) = &st.kind {
+                            match &b.1 {
+                                Rvalue::Aggregate(k, _) => {
+                                    if let AggregateKind::Adt(d, vi, _, _, _) = &**k {
+                                        let adt = tcx.adt_def(*d);
+                                        if adt.is_enum() {
+                                            summary = format!(
+                                                "{{\"adt\":{},\"variant\":{}}}",
+                                                esc(&self.path(*d)),
+                                                esc(adt.variant(*vi).name.as_str())
+                                            );
+                                        }
+                                    }
+                                }
+                                Rvalue::Use(Operand::Constant(c), ..) => {
+                                    if let Some(si) = c.const_.try_to_scalar_int() {
+                                        let sz = si.size();
+                                        if summary == "null" {
+                                            summary = format!("{{\"v\":{}}}", si.to_uint(sz));
+                                        }
+                                    }
+                                }
+                                _ => {}
+                            }
+                        }
+                    }
+                }
+                out.push_str(&summary);
+            }
+        }
+        out.push_str("],\"blocks\":[");
         let doms = body.basic_blocks.dominators();
         for (bi, bbd) in body.basic_blocks.iter_enumerated() {
             if bi.as_usize() > 0 {
